@@ -3,7 +3,7 @@ import core
 from props import collector_common as cc
 
 ID = 'C05'
-EXTRACT = ['collector', 'frames']
+EXTRACT = ['collector', 'frames', 'collector_time']
 LEAN_TARGETS = ['DeepModel.Props.C05']
 AUDIT = 'DeepModel/Audit/C05.lean'
 DRIVER = 'DeepModel/Driver/C05.lean'
@@ -26,7 +26,9 @@ TRUSTED = ['CPython frame.f_locals / eval / id() semantics; str()/len()/tuple() 
            'harness/props/collector_common.py: object builder, raw-fact walker (describe_heap), reference levels']
 ASSUMPTIONS = ['limits are non-negative integers; negative ints (search stops before the root / text sliced from the end) and '
                'non-integers (the comparison raises, no snapshot) are outside the statement: labelled stream limits-outside, recorded only',
-               'the per-trigger time budget (MAX_TP_PROCESS_TIME) is modelled as one bit per frame (scripted clock)',
+               'the per-trigger time budget (MAX_TP_PROCESS_TIME): the clock the frame collector reads is scripted (value per read); '
+               'the model decides from the same script which frames are collected and how often the clock is read; time spent '
+               'inside one frame is never checked by the code (not a claim)',
                'str() of the whole locals dict (log text of process_variable) is kept affordable: graphs whose repr '
                'expands to more than 20000 nodes are not generated (the agent computes it; exponential in DAG-shaped data)']
 
@@ -56,12 +58,11 @@ def gen(rng, tier):
         elif r < 0.84:
             yield cc.gen_case(rng, mock_frames=rng.randint(1, 3),
                               frame_type=rng.choice(['all_frame', 'all_frame', 'single_frame', 'no_frame']))
-        elif r < 0.92:
+        elif r < 0.90:
             yield cc.gen_case(rng, nactions=2)
         elif r < 0.96:
-            c = cc.gen_case(rng)
-            c['time_exceeded'] = True
-            yield c
+            # the processing-time budget against a scripted clock (boundary readings, clocks that go back)
+            yield cc.gen_clock(rng)
         else:
             yield cc.gen_case(rng, small=False)
 
@@ -108,6 +109,9 @@ def oracle(case, obs):
         v.append('trace_call raised into the host: ' + obs['raised'])
     for ai, s in cc.snapshots_by_action(case, obs):
         v += cc.judge_bounds(case, obs, live, ai, s)
+        if cc.clock_of(case) is not None:
+            # the time budget: which frames carry variables, and that they carry all of them (never cut half-way)
+            v += cc.judge_frames(case, obs, live, ai, s)
     return v
 
 
@@ -144,6 +148,8 @@ def label(case, obs):
     if any(a.get('raw_limits') for a in case['actions']):
         rl = case['actions'][0]['raw_limits']
         return 'limits-outside/%s=%r/snap%d' % (list(rl)[0], list(rl.values())[0], len(obs.get('snapshots', [])))
+    if case.get('clock'):
+        return 'clock/%s/%s' % (case.get('frame_type', ''), cc.clock_label(case, obs))
     kind = 'mock/' + case.get('frame_type', '') if case.get('mock') else ('capture' if case.get('capture') else 'frame')
     return kind + '/' + '+'.join(sorted(hit(case, obs)) or ['none'])
 
@@ -153,4 +159,6 @@ def nontrivial(case, obs):
         return bool(obs.get('overlapped'))
     if any(a.get('raw_limits') for a in case['actions']):
         return False
+    if case.get('clock'):
+        return cc.clock_label(case, obs) in ('cut', 'none')
     return bool(hit(case, obs) - {'depth'})
